@@ -635,6 +635,12 @@ def _decorate_fn_or_cls(decorator,
     decorated_class = cls
     construction_fn = _find_class_construction_fn(decorated_class)
     decorated_fn = decorator(_ensure_wrappability(construction_fn))
+    if construction_fn is object.__init__:
+      # `cls` defines no constructor. `inspect.signature` reports `()` for such
+      # a class, but would report the `(*args, **kwargs)` of `object.__init__`
+      # once an `__init__` is set on it; keep the class's signature unchanged.
+      decorated_fn.__signature__ = inspect.Signature(
+          [inspect.Parameter('self', inspect.Parameter.POSITIONAL_ONLY)])
     if construction_fn.__name__ == '__new__':
       decorated_fn = staticmethod(decorated_fn)
     setattr(decorated_class, construction_fn.__name__, decorated_fn)
